@@ -113,7 +113,7 @@ func (x *executor) runOps(task int, ops []Op) {
 		simrt.SetVariation(op.MapPerm, op.AddrPolicy)
 		var key string
 		var out outcome
-		if op.PanicAt > 0 {
+		if op.PanicAt > 0 && panicOK(op.Kind) {
 			simrt.ArmPanic(op.PanicAt)
 		}
 		if op.Kind == "build" {
@@ -141,7 +141,7 @@ func (x *executor) runOps(task int, ops []Op) {
 				key = "" // judged by O-lin, not per call index
 			}
 		}
-		if op.PanicAt > 0 {
+		if op.PanicAt > 0 && panicOK(op.Kind) {
 			_, fired := simrt.Disarm()
 			if fired >= 0 {
 				// The object met an injected internal failure: whatever it
@@ -194,7 +194,8 @@ func (x *executor) checkStable(task, opIdx int, inFlight bool) {
 			continue
 		}
 		if inFlight {
-			if h.kind == "ast" || h.kind == "values" || h.kind == "deref" {
+			switch h.kind {
+			case "ast", "values", "deref", "rules", "types", "inner":
 				continue
 			}
 		}
